@@ -126,8 +126,8 @@ def run_forest(out, eng, tier):
     file = "src/data/disjoint_set.rs"
 
     def mkstate():
-        reps = Agg("VectorMap<Value, Value>", {0: Obj("phantom"), 1: optvec("reps", "usize", n), 2: Lazy("usize", "reps.size")})
-        data = Agg("VectorMap<Value, Data>", {0: Obj("phantom"), 1: optvec("data", "u8", n), 2: Lazy("usize", "data.size")})
+        reps = Agg("VectorMap<Value, Value>", {0: Obj("phantom"), 1: optvec("reps", "usize", n), 2: Lazy("usize", "reps.size")}, None, "reps.extra")
+        data = Agg("VectorMap<Value, Data>", {0: Obj("phantom"), 1: optvec("data", "u8", n), 2: Lazy("usize", "data.size")}, None, "data.extra")
         return Cell(Agg("DisjointSet<Value, Data>", {0: reps, 1: data}), "ds")
 
     def post_arrays(ctx, cell):
